@@ -442,9 +442,11 @@ def r3_run_sentinels(ctx: Ctx) -> None:
                         continue  # forwarded parameter (ignore_run -> accept_run); decided at the outer call site
                 elif isinstance(cand, ast.Subscript) and isinstance(cand.value, ast.Name):
                     # acceptable_values[base_prefix]: every value of the literal dict
-                    defs = [n for n in walk_no_nested(fn.node) if isinstance(n, ast.Assign) and unparse(n.targets[0]) == cand.value.id and isinstance(n.value, ast.Dict)]
-                    if len(defs) == 1:
-                        lit = "".join(const_str(v) or "\0" for v in defs[0].value.values)  # type: ignore[attr-defined]
+                    from ..match import const_string, literal_binding
+
+                    table = literal_binding(fn, cand.value.id)
+                    if isinstance(table, ast.Dict):
+                        lit = "".join(const_string(fn, v) or "\0" for v in table.values)
                 neg = False
                 for k in c.keywords:
                     if k.arg == "negate":
